@@ -64,7 +64,8 @@ def module_closure(roots):
     return sorted(seen)
 
 
-EXTRA_PROPS = {"C04": ["C04Par"], "C09": ["C09Hist"], "C16": ["C16Indep"], "C02": ["C02Cmd"], "C05": ["C05Copy"], "C15": ["C05Copy"]}
+EXTRA_PROPS = {"C04": ["C04Par"], "C09": ["C09Hist"], "C16": ["C16Indep"], "C02": ["C02Cmd"], "C05": ["C05Copy"], "C15": ["C05Copy"],
+               "C10": ["C10Loop"], "C12": ["C10Loop"], "C08": ["C08Cmd"], "C11": ["C08Cmd"]}
 
 
 def audit(pid):
@@ -78,7 +79,22 @@ def audit(pid):
         if not os.path.exists(props_file):
             raise MachineryError("no Props file for " + mod)
         src = strip_comments(open(props_file).read())
-        names += [(mod, n) for n in re.findall(r"^\s*theorem\s+([A-Za-z0-9_'.]+)", src, re.M)]
+        # theorems with the namespace they are stated in (a Props file may hold more than one namespace)
+        stack = []
+        for line in src.split("\n"):
+            m = re.match(r"^\s*namespace\s+([A-Za-z0-9_'.]+)", line)
+            if m:
+                stack.append(m.group(1))
+                continue
+            m = re.match(r"^\s*end\s+([A-Za-z0-9_'.]+)\s*$", line)
+            if m and stack and stack[-1] == m.group(1):
+                stack.pop()
+                continue
+            m = re.match(r"^\s*theorem\s+([A-Za-z0-9_'.]+)", line)
+            if m:
+                ns = ".".join(stack)
+                ns = ns[len("TrashVerif."):] if ns.startswith("TrashVerif.") else ns
+                names.append((mod, (ns + "." if ns and ns != mod else "") + m.group(1)))
     if not names:
         raise MachineryError("no theorems in Props/%s.lean" % pid)
     bad_kw = []
@@ -90,7 +106,7 @@ def audit(pid):
         for mod in sorted({m for m, _ in names}):
             tf.write("import TrashVerif.Props.%s\n" % mod)
         for mod, n in names:
-            tf.write("#print axioms TrashVerif.%s.%s\n" % (mod, n))
+            tf.write("#print axioms TrashVerif.%s\n" % (n if "." in n else mod + "." + n))
         tmp = tf.name
     try:
         p = subprocess.run(["lake", "env", "lean", tmp], cwd=LEAN_DIR, stdout=subprocess.PIPE,
@@ -102,8 +118,8 @@ def audit(pid):
     text = p.stdout.replace("\n  ", " ")
     axioms = {}
     for mod, n in names:
-        m = re.search(r"'TrashVerif\.%s\.%s' (does not depend on any axioms|depends on axioms: \[([^\]]*)\])"
-                      % (re.escape(mod), re.escape(n)), text)
+        m = re.search(r"'TrashVerif\.%s' (does not depend on any axioms|depends on axioms: \[([^\]]*)\])"
+                      % re.escape(n if "." in n else mod + "." + n), text)
         if not m:
             raise MachineryError("no axiom report for %s.%s in:\n%s" % (mod, n, p.stdout))
         key = n if mod == pid else mod + "." + n
